@@ -47,8 +47,14 @@ def variants(model):
     p = free[-1]
     lo, hi = sorted((0.3 * tr[p], 0.93 * tr[p]))
     out.append(("lim-bound:" + p, [("lim", p, round(lo, 6), round(hi, 6))]))
-    if "c" in free:
-        out.append(("fix0:c", [("fix", "c", 0.0)]))  # fixing to exactly zero
+    if "c" in free and abs(tr["c"]) <= 1.0:
+        # fixing to exactly zero - only where zero is a plausible value of the offset: a sinusoid around 3 with its offset held at 0
+        # has several local minima and the backends legitimately end in different ones (not a well-posed problem)
+        out.append(("fix0:c", [("fix", "c", 0.0)]))
+    if len(free) == 2:
+        # two-parameter families: with the exponent / rate held at exactly zero the model is a constant times the remaining parameter
+        # (a one-dimensional linear problem, certainly well-posed)
+        out.append(("fix0:" + free[-1], [("fix", free[-1], 0.0)]))
     # values assigned with set_all_parameter_values, then one parameter fixed WITHOUT a value: it stays where it was put
     moved = [round(tr[q] * (1.05 if i % 2 == 0 else 0.96), 6) for i, q in enumerate(w.par_names)]
     out.append(("setall+fix:" + free[-1], [("setall", moved), ("fix", free[-1])]))
